@@ -27,7 +27,7 @@ import irispie as ir
 from .common import Ctx, Rng, rat_of_float, VERIF
 
 DRIVERS = ["C01"]
-EXTRA_PROPS = ["QMatBridge"]   # refinement bridge: the executable QMat model satisfies the hypotheses of the matrix-level theorems
+EXTRA_PROPS = ["QMatBridge", "C01QZ", "BridgeC01Sim"]   # refinement bridge: the executable QMat model satisfies the hypotheses of the matrix-level theorems
 LEVEL = "proof"
 MANIFEST = {
     "category": "proof",
@@ -38,11 +38,15 @@ MANIFEST = {
              "condition and every path of unanticipated and anticipated shocks (the infinitely many anticipated conditions follow from "
              "finitely many by induction), frames tile the base span and a split simulation equals the single-frame one, "
              "level = steady (path, also with growth) + deviation by induction over periods, ||T^m||<1 => shock-free path bounded by c*||xi0|| for all t, "
-             "forward expansion R_k = -X J^(k-1) Ru equals the backward recursion of the unstable block. "
+             "forward expansion R_k = -X J^(k-1) Ru equals the backward recursion of the unstable block; "
+             "block algebra of _solve_transition_equations (Props/C01QZ.lean): exact QZ identities + invertible S11, T22, S22+T22, Z21 => the computed "
+             "T, K, P satisfy E1=E2=E3=0 and, with the computed X, J, Ru, every equation holds in every period with unanticipated and anticipated "
+             "shocks; the Schur rotation cancels and T Ua = Ua Ta; the executable certificate (QMatBridge) and the executable state recursion / "
+             "forward expansion (BridgeC01Sim) refine the theorem-level definitions. "
              "PARTIAL: the quantifier over model programs is covered by translation validation -- per generated model the certificate is "
              "evaluated in exact rational arithmetic on the implementation's own systemize()/get_solution() matrices (bound 1e-8*scale), "
-             "the stability certificate exactly, the simulated databox against the exact recursion; QZ/Schur/lstsq internals are not modelled "
-             "(the _qz block algebra is not proved); Blanchard-Kahn count against an independent scipy eig of the harness's own pencil."),
+             "the stability certificate and T Ua = Ua Ta exactly, the simulated databox against the exact recursion; that scipy's ordqz/schur/lstsq "
+             "return an (approximately) exact factorisation is not modelled; Blanchard-Kahn count against an independent scipy eig of the harness's own pencil."),
     "design": "7/C01",
     "note": "partial: certificate validation per program; floating point and LAPACK are outside the theorems; conditional (plan) simulations belong to C07",
     "technique": "Lean 4 proof of schematic theorems + exact-arithmetic certificate validation + dyadic-exact differential correspondence of the simulator",
@@ -841,6 +845,15 @@ def numpy_certificate(b: Built):
     return out
 
 
+def sqtri_line(b: Built) -> str:
+    """square/triangular consistency of the returned Solution: T Ua = Ua Ta, P = Ua Pa, K = Ua Ka, X = Ua Xa"""
+    sol = b.sol
+    nb = sol.T.shape[0]
+    X = sol.X if sol.X is not None else np.zeros((nb, 0))
+    Xa = sol.Xa if sol.Xa is not None else np.zeros((sol.Ta.shape[0], 0))
+    return "sqtri " + " ".join(mat_text(m) for m in (sol.T, sol.Ua, sol.Ta, sol.P, sol.Pa, sol.K, sol.Ka, X, Xa))
+
+
 def stab_matrix(b: Built):
     """the block on which non-explosiveness is claimed: T itself without unit roots, else the stable block of Ta"""
     nunit = b.sol.num_unit_roots
@@ -972,6 +985,7 @@ def check_model(ctx: Ctx, i, r: Rng, spec, verdict, lines: dict, n_cases: int):
     oracle_bk(ctx, b, verdict, tag)
     lines["vec"].append((tag, vec_line(b), vec_impl(b)))
     lines["cert"].append((tag, cert_line(b), b))
+    lines["sqtri"].append((tag, sqtri_line(b), b))
     Tm = stab_matrix(b)
     k = propose_power(Tm)
     if k is None:
@@ -1036,7 +1050,7 @@ def check_measurement_lead(ctx: Ctx, r: Rng, spec, tag):
 
 def flush_lines(ctx: Ctx, lines: dict):
     """send the queued requests through the Lean driver (one process for all streams) and compare"""
-    order = ["vec", "simD", "stab", "cert", "simT"]
+    order = ["vec", "simD", "stab", "cert", "sqtri", "simT"]
     allreq = [l for k in order for (_, l, _) in lines[k]]
     allrep = ctx.model("C01", allreq)
     rep_of, pos = {}, 0
@@ -1082,6 +1096,29 @@ def flush_lines(ctx: Ctx, lines: dict):
             ctx.disagree("certificate", case, f"all certificate blocks <= {bound:.2e}", json.dumps(bad))
         if c["smax"] >= 1:
             ctx.count(f"certificate:smax={c['smax']}")
+    # square/triangular consistency: exact evaluation in Lean, bound in the harness
+    items = lines["sqtri"]
+    replies = rep_of["sqtri"]
+    for idx, (t, l, b) in enumerate(items):
+        case = {"model": t["model"], "spec": t["spec"]}
+        if replies is not None:
+            rep = replies[idx]
+            ctx.streams_compared["square-triangular"] = ctx.streams_compared.get("square-triangular", 0) + 1
+            if not rep.startswith("ok "):
+                ctx.disagree("square-triangular", case, "residuals", rep[:100]); continue
+            dd = {k: Fraction(v) for k, v in (kv.split("=", 1) for kv in rep.split()[1:])}
+        else:
+            sol = b.sol
+            mx = lambda m: float(np.max(np.abs(m))) if np.size(m) else 0.0
+            dd = {"TU": mx(sol.T @ sol.Ua - sol.Ua @ sol.Ta), "P": mx(sol.P - sol.Ua @ sol.Pa), "K": mx(sol.K - sol.Ua @ sol.Ka),
+                  "X": mx(sol.X - sol.Ua @ sol.Xa) if sol.X is not None and sol.Xa is not None else 0.0,
+                  "scale": max([1.0] + [mx(m) for m in (sol.T, sol.Ua, sol.Ta, sol.P, sol.K)])}
+        bound = TOL_CERT * float(dd["scale"])
+        bad = {k: float(v) for k, v in dd.items() if k != "scale" and float(v) > bound}
+        ctx.extra["max_square_triangular_residual"] = max(ctx.extra.get("max_square_triangular_residual", 0.0),
+                                                          max(float(v) for k, v in dd.items() if k != "scale"))
+        if bad:
+            ctx.disagree("square-triangular", case, f"T Ua = Ua Ta, P = Ua Pa, K = Ua Ka, X = Ua Xa within {bound:.2e}", json.dumps(bad))
     # class T: exact recursion vs simulated databox
     items = lines["simT"]
     replies = rep_of["simT"]
@@ -1126,7 +1163,7 @@ def exact_certificate_cases():
 
 
 def new_lines():
-    return {"vec": [], "cert": [], "stab": [], "simT": [], "simD": []}
+    return {"vec": [], "cert": [], "stab": [], "simT": [], "simD": [], "sqtri": []}
 
 
 def replay_corpus(ctx: Ctx):
@@ -1199,6 +1236,7 @@ def replay(ctx: Ctx, payload):
         oracle_bk(ctx, b, verdict, tag)
         lines["vec"].append((tag, vec_line(b), vec_impl(b)))
         lines["cert"].append((tag, cert_line(b), b))
+        lines["sqtri"].append((tag, sqtri_line(b), b))
         if "case" in case and not case.get("override"):
             sc = case["case"]
             ctag = dict(tag, case=sc)
